@@ -79,9 +79,10 @@ def root_of(o):
     return o
 
 class Ref:
-    def __init__(self, model, mm):
+    def __init__(self, model, mm, emulate=()):
         self.model = model
         self.mm = mm
+        self.emulate = set(emulate)
     def starts_locally(self, n):
         if isinstance(n, (R.RRELParent, R.RRELDots)): return True
         if isinstance(n, R.RRELNavigation): return False
@@ -119,10 +120,14 @@ class Ref:
                 for x in lst:
                     if hasattr(x, 'name') and x.name == n.fixed_name:
                         yield (x, rem, path + (x,), False)
+                        if 'first-sibling-only' in self.emulate:
+                            break
             else:
                 for x in lst:
                     if hasattr(x, 'name') and x.name == rem[0]:
                         yield (x, rem[1:], path + (x,), False)
+                        if 'first-sibling-only' in self.emulate:
+                            break
         elif isinstance(n, R.RRELParent):
             t = self.mm[n.type]
             for p in parents(obj):
@@ -159,6 +164,9 @@ class Ref:
         elif isinstance(n, R.RRELZeroOrMore):
             out = []
             seen = set()
+            expanded = set()
+            work = []
+
             def add(s):
                 k = (id(s[0]), s[1])
                 if k in seen:
@@ -166,31 +174,40 @@ class Ref:
                 seen.add(k)
                 out.append(s)
                 return True
-            work = []
+
+            def push(s):
+                k = (id(s[0]), s[1])
+                if k not in expanded:
+                    expanded.add(k)
+                    work.append(s)
+            blocked = None
             if first:
                 if self.starts_locally(n):
-                    s = (obj, rem, path, False)
-                    add(s)
+                    add((obj, rem, path, False))
                 if self.starts_at_root(n):
-                    s = (root_of(obj), rem, path, False)
-                    add(s)
-                # first expansion from the original object with the first flag
+                    add((root_of(obj), rem, path, False))
+                if 'leading-star-start-marked-visited' in self.emulate and self.starts_locally(n) and self.starts_at_root(n):
+                    # textX marks the referencing object as visited for this '*' before the expansion (which really
+                    # starts at the model root for navigation steps) reaches it again
+                    blocked = (id(obj), len(rem))
                 for r in self.ev(n.path_element.seq, (obj, rem, path, True)):
-                    if add(r):
-                        work.append(r)
+                    if blocked == (id(r[0]), len(r[1])):
+                        continue
+                    add(r)
+                    push(r)
             else:
                 s = (obj, rem, path, False)
                 add(s)
-                work.append(s)
-            # closure (bounded: paths grow only on name consumption, so key space is finite... paths can
-            # grow via fixed names; cap iterations)
+                push(s)
             it = 0
             while work and it < 5000:
                 it += 1
                 s = work.pop()
                 for r in self.ev(n.path_element.seq, s):
-                    if add(r):
-                        work.append(r)
+                    if blocked == (id(r[0]), len(r[1])):
+                        continue
+                    add(r)
+                    push(r)
             yield from out
         else:
             raise TypeError(n)
